@@ -24,3 +24,5 @@ mod c13;
 mod c20;
 #[cfg(all(kani, feature = "c21"))]
 mod c21;
+#[cfg(all(kani, feature = "c09"))]
+mod c09;
